@@ -11,7 +11,7 @@ RUN: harness/c08.cpp - one real transformation per (tree, vector): a generated s
 TV : Trace_C08.tla - first event of an execution = reference vector, every other event must satisfy SameContent /
      HtmlSame / the text rule of OutputOptions.tla.  TLC decides; a reject is attributed to a known finding only if
      undoing exactly that deviation makes TLC accept the event."""
-import copy, json, os, random, subprocess, itertools
+import copy, html, json, os, random, subprocess, itertools
 from concurrent.futures import ThreadPoolExecutor, ProcessPoolExecutor
 import vlib, tlaparse, c08lib
 from vlib import ROOT
@@ -159,13 +159,51 @@ def _unrep(s, enc):
     return [c for c in s if c > lim]
 
 
-def repair(ev, ref, tree):
+def _cdata_tail_unrep(ref, names, lim):
+    """does a cdata-section element hold a text child whose last character (line feeds aside) the encoding cannot represent"""
+    for n in ref:
+        if n["k"] != "elem":
+            continue
+        if "".join(map(chr, n["name"])) in names:
+            for k in n["kids"]:
+                if k["k"] == "text":
+                    v = [c for c in k["v"] if c != 10]
+                    if v and v[-1] > lim:
+                        return True
+        if _cdata_tail_unrep(n["kids"], names, lim):
+            return True
+    return False
+
+
+def _tab_in_cdata_comment_pi(ns, names, incdata):
+    for n in ns:
+        if n["k"] in ("comment", "pi") and 9 in n["v"]:
+            return True
+        if n["k"] == "text" and incdata and 9 in n["v"]:
+            return True
+        if n["k"] == "elem" and _tab_in_cdata_comment_pi(n["kids"], names, "".join(map(chr, n["name"])) in names):
+            return True
+    return False
+
+
+def _want_dt(o, ref):
+    els = [n for n in ref if n["k"] == "elem"]
+    if o["doctype"] in ("system", "public") and els:
+        return {"present": True, "name": "".join(map(chr, els[0]["name"])), "sys": "c08.dtd", "pub": "-//C08//DTD T 1.0//EN" if o["doctype"] == "public" else ""}
+    return NODT
+
+
+def repair(ev, ref, tree, data):
     """undo exactly the known deviations in a rejected event; returns (repaired event, keys applied).  The repaired event goes
     back to TLC: only if it is then accepted is the reject attributed to those keys."""
     o, m, enc = ev["opts"], ev["kind"], ev["enc"]
     ev2, keys = copy.deepcopy(ev), []
     lim = {"US-ASCII": 127, "ISO-8859-1": 255}.get(enc, 0x10FFFF)
     auto_html = o["method"] == "none" and m == "html"
+    if auto_html and tree and tree[0]["k"] in ("comment", "pi") and data[:1] == b"<" and not data.lstrip().lower().startswith((b"<html", b"<!doctype html")):
+        # a comment / PI in front of <html>: the xml method was used; judge the output as what it is
+        ev2 = observe((dict(o, method="xml"), tree, {"status": ev["status"], "msg": ev["perr"], "hex": data.hex()}, False, ev["treeId"]))
+        return ev2, ["defaultHtmlNotChosenAfterLeadingComment"]
     if auto_html and o["setOmitMeta"] == "yes":
         ev2["opts"]["setOmitMeta"] = "default"; keys.append("autoHtmlIgnoresOmitMetaOverride")
     if auto_html and o["setEscapeURLs"] == "no":
@@ -177,12 +215,22 @@ def repair(ev, ref, tree):
                 if n["k"] == "text": txt.extend(n["v"])
                 elif n["k"] == "elem": walk(n["kids"])
         walk(ref)
-        if ev["status"] == 0 and any(c > lim for c in txt) and ev["text"] == [(26 if c > lim else c) for c in txt]:
+        if ev["status"] == 0 and any(c > lim for c in txt) and ev["text"] == [x for c in txt for x in (([26, 26] if c > 65535 else [26]) if c > lim else [c])]:
             ev2["status"] = -1; ev2["text"] = []; keys.append("textUnrepresentableSubstituted")      # "had an error been signalled"
         return ev2, keys
-    if ev["status"] != 0 or ev["perr"]:
-        return ev2, keys
     used = set()
+    if m == "xml" and ev["status"] == 0 and o["cdata"] and lim < 0x10FFFF and _cdata_tail_unrep(ref, o["cdata"], lim) and b"<![CDATA[</" in data:
+        # the section re-opened after the character reference is never closed: put the missing "]]>" in and read the document again
+        r = c08lib.parse_xml(data.replace(b"<![CDATA[</", b"<![CDATA[]]></"), None if data[:5] == b"<?xml" else enc)
+        if "error" not in r:
+            ev2["perr"] = ""; ev2["tree"], ev2["decl"], ev2["doctype"] = c08lib.canon(r["tree"]), r["decl"], r["doctype"]
+            used.add("cdataSectionLeftOpen")
+    if (m == "xml" and ev["status"] != 0 and o["version"] == "1.1" and "code point '9' is not a legal XML 1.1 character" in ev["perr"]
+            and _tab_in_cdata_comment_pi(ref, o["cdata"], False)):
+        # the transformation was refused: nothing to read back; attributed on the input alone (TAB in a CDATA element / comment / PI, 1.1)
+        return dict(ev2, status=0, perr="", tree=copy.deepcopy(ref), decl=NODECL, doctype=ev["doctype"] if ev["doctype"]["present"] else _want_dt(o, ref)), keys + ["xml11TabRejected"]
+    if ev2["status"] != 0 or ev2["perr"]:
+        return ev2, keys + sorted(used)
 
     def walk(rk, tk, parent):
         """parallel walk of reference and observed siblings (inserted whitespace-only nodes skipped)"""
@@ -191,6 +239,9 @@ def repair(ev, ref, tree):
             r, t = rk[i], tk[j]
             if t["k"] == "text" and r["k"] != "text" and all(c in (9, 10, 13, 32) for c in t["v"]):
                 j += 1; continue
+            if (m == "html" and t["k"] == "elem" and t["name"] == c08lib.cps("meta") and any(a[0] == c08lib.cps("http-equiv") for a in t["attrs"])
+                    and not (r["k"] == "elem" and "".join(map(chr, r["name"])).lower() == "meta")):
+                j += 1; continue                            # the inserted META
             if r["k"] != t["k"]:
                 return
             if r["k"] == "text" and r["v"] != t["v"]:
@@ -201,12 +252,23 @@ def repair(ev, ref, tree):
                         t["v"] = list(r["v"]); used.add("wsAfterCdataBeforeElement")
                     elif _has_doe(tree, r["v"]):
                         t["v"] = list(r["v"]); used.add("wsAfterRawBeforeElement")
+            elif r["k"] == "pi" and m == "html" and r["v"] != t["v"] and html.unescape("".join(map(chr, t["v"]))) == "".join(map(chr, r["v"])):
+                t["v"] = list(r["v"]); used.add("htmlPIDataEscaped")
             elif r["k"] in ("comment", "pi") and r["v"] != t["v"]:
                 if m == "xml" and t["v"] == [x for c in r["v"] for x in (c08lib.cps("&#%d;" % c) if c > lim else [c])]:
                     t["v"] = list(r["v"]); used.add("charRefInCommentOrPI")
                 elif m == "html" and t["v"] == [(63 if c > lim else c) for c in r["v"]]:
                     t["v"] = list(r["v"]); used.add("htmlCommentUnrepresentableReplaced")
             elif r["k"] == "elem":
+                if m == "html":
+                    ra = {"".join(map(chr, a[0])).lower(): a[1] for a in r["attrs"]}
+                    for a in t["attrs"]:
+                        rv = ra.get("".join(map(chr, a[0])))
+                        if rv is not None and rv != a[1] and any(c > 65535 for c in rv) and a[1] == [c & 65535 for c in rv]:
+                            a[1] = list(rv); used.add("htmlAttrSupplementaryTruncated")
+                        elif (rv is not None and rv != a[1] and any(c > 65535 for c in rv) and lim < 65535 and o["setEscapeURLs"] == "no"
+                              and a[1] == [x for c in rv for x in ([65533, 65533] if c > 65535 else [c])]):
+                            a[1] = list(rv); used.add("htmlUriAttrSurrogateRefs")
                 walk(r["kids"], t["kids"], r["name"])
             i += 1; j += 1
     walk(ref, ev2["tree"], None)
@@ -291,6 +353,7 @@ def run(res, tier, seed):
     for ev in events:
         if ev["e"] == "Out" and ev["want"]:
             refs[ev["treeId"]] = ev["tree"]
+    refevs = {e["treeId"]: e for e in events if e["e"] == "Out" and e["want"]}
     second, pending = [], []
     bad = 0
     for rj in rejects:
@@ -300,9 +363,9 @@ def run(res, tier, seed):
         if isref or xi not in refs:
             res.violation(rj["msg"][:300], [events[rj["line"] - 1], dict(ev, xsl=cases[cid]["xsl"], hex=dones[cid]["hex"])]); bad += 1
             continue
-        ev2, keys = repair(ev, refs[xi], execs[xi][1])
+        ev2, keys = repair(ev, refs[xi], execs[xi][1], bytes.fromhex(dones[cid]["hex"]))
         pending.append((rj, ev, cid, keys))
-        refev = next(e for e in events if e["e"] == "Out" and e["treeId"] == xi and e["want"])
+        refev = refevs[xi]
         second += [{"e": "Reset", "treeId": xi}, refev, ev2]
     if second:
         rej2, _ = vlib.tlc_validate_sharded(TRACE, second, tag="c08tv2", timeout=3000, xmx="3g")
